@@ -248,7 +248,7 @@ pub fn run(ctx: &mut Ctx) {
     for (n, ok) in r2::selftest() {
         ctx.selftest(&n, ok);
     }
-    ctx.require(&["annex_kat", "honest_keys_equal", "step2_rejects_invalid_RA", "step3_rejects", "step4_rejects", "klen=1", "klen=16", "klen=200", "kind=OffCurve", "kind=Negated", "kind=OtherPoint", "kind=BitFlipHash", "kind=PermutedHash", "honest_R_rerandomised_representation", "id_non_ascii_utf8", "key_from_gen_keypair", "key_with_jacobian_public_point", "degenerate_dA_shared_point_infinity_at_B", "degenerate_dB_shared_point_infinity_at_A"]);
+    ctx.require(&["annex_kat", "honest_keys_equal", "step2_rejects_invalid_RA", "step3_rejects", "step4_rejects", "klen=1", "klen=16", "klen=200", "kind=OffCurve", "kind=Negated", "kind=OtherPoint", "kind=BitFlipHash", "kind=PermutedHash", "klen_needs_more_than_255_kdf_blocks", "honest_R_rerandomised_representation", "id_non_ascii_utf8", "key_from_gen_keypair", "key_with_jacobian_public_point", "degenerate_dA_shared_point_infinity_at_B", "degenerate_dB_shared_point_infinity_at_A"]);
     for s in 0..16 {
         ctx.required.push(format!("subset={:04b}", s));
     }
@@ -285,9 +285,13 @@ pub fn run(ctx: &mut Ctx) {
             2 => 200,
             3 => 32,
             4 => 33,
+            7 if i % 20 == 7 => [255usize, 256, 8160, 8161, 8193, 70_000, 2_100_000][((i / 20) % 7) as usize],
             _ => p.range(1, 200),
         };
         ctx.class(&format!("klen={}", klen));
+        if klen > 8160 {
+            ctx.class("klen_needs_more_than_255_kdf_blocks");
+        }
         let la = p.range(0, 40);
         let lb = p.range(1, 40);
         let (ida, idb) = if i % 5 == 2 {
